@@ -43,29 +43,29 @@ var listKinds = []listKind{
 		Wrap: func(i int, b string) string { return "\t_ = " + b + "\n" }},
 	{Name: "params-unnamed", PatKind: "decl", Ctx: "params", Sep: ",", XKind: "expression",
 		Head: func(i int) string { return fmt.Sprintf("func «f»(") }, Tail: []string{") {", "}"},
-		Elem:  map[byte]string{'a': "TA", 'b': "TB", 'c': "TC", 'z': "TZ", 'p': "TP", 'q': "TQ", 'x': "«x»", 'y': "«y»"},
-		Meta:  []gen.MetaVar{{Name: "f", Kind: "identifier"}},
-		Wrap:  func(i int, b string) string { return b + "\n\n" }},
+		Elem: map[byte]string{'a': "TA", 'b': "TB", 'c': "TC", 'z': "TZ", 'p': "TP", 'q': "TQ", 'x': "«x»", 'y': "«y»"},
+		Meta: []gen.MetaVar{{Name: "f", Kind: "identifier"}},
+		Wrap: func(i int, b string) string { return b + "\n\n" }},
 	{Name: "params-named", PatKind: "decl", Ctx: "nparams", Sep: ",", XKind: "identifier",
 		Head: func(i int) string { return "func «f»(" }, Tail: []string{") {", "}"},
-		Elem:  map[byte]string{'a': "pa TA", 'b': "pb TB", 'c': "pc TC", 'z': "pz TZ", 'p': "pp TP", 'q': "pq TQ", 'x': "«x» TX", 'y': "«y» TX"},
-		Meta:  []gen.MetaVar{{Name: "f", Kind: "identifier"}},
-		Wrap:  func(i int, b string) string { return b + "\n\n" }},
+		Elem: map[byte]string{'a': "pa TA", 'b': "pb TB", 'c': "pc TC", 'z': "pz TZ", 'p': "pp TP", 'q': "pq TQ", 'x': "«x» TX", 'y': "«y» TX"},
+		Meta: []gen.MetaVar{{Name: "f", Kind: "identifier"}},
+		Wrap: func(i int, b string) string { return b + "\n\n" }},
 	{Name: "results-unnamed", PatKind: "decl", Ctx: "results", Sep: ",", XKind: "expression",
 		Head: func(i int) string { return "func «f»() (" }, Tail: []string{") {", "}"},
-		Elem:  map[byte]string{'a': "TA", 'b': "TB", 'c': "TC", 'z': "TZ", 'p': "TP", 'q': "TQ", 'x': "«x»", 'y': "«y»"},
-		Meta:  []gen.MetaVar{{Name: "f", Kind: "identifier"}},
-		Wrap:  func(i int, b string) string { return b + "\n\n" }},
+		Elem: map[byte]string{'a': "TA", 'b': "TB", 'c': "TC", 'z': "TZ", 'p': "TP", 'q': "TQ", 'x': "«x»", 'y': "«y»"},
+		Meta: []gen.MetaVar{{Name: "f", Kind: "identifier"}},
+		Wrap: func(i int, b string) string { return b + "\n\n" }},
 	{Name: "struct-fields", PatKind: "decl", Ctx: "fields", Sep: "", XKind: "identifier",
 		Head: func(i int) string { return "type «N» struct {" }, Tail: []string{"}"},
-		Elem:  map[byte]string{'a': "FA int", 'b': "FB int", 'c': "FC int", 'z': "FZ int", 'p': "FP int", 'q': "FQ int", 'x': "«x» string", 'y': "«y» string"},
-		Meta:  []gen.MetaVar{{Name: "N", Kind: "identifier"}},
-		Wrap:  func(i int, b string) string { return b + "\n\n" }},
+		Elem: map[byte]string{'a': "FA int", 'b': "FB int", 'c': "FC int", 'z': "FZ int", 'p': "FP int", 'q': "FQ int", 'x': "«x» string", 'y': "«y» string"},
+		Meta: []gen.MetaVar{{Name: "N", Kind: "identifier"}},
+		Wrap: func(i int, b string) string { return b + "\n\n" }},
 	{Name: "interface-methods", PatKind: "decl", Ctx: "methods", Sep: "", XKind: "identifier",
 		Head: func(i int) string { return "type «N» interface {" }, Tail: []string{"}"},
-		Elem:  map[byte]string{'a': "MA()", 'b': "MB()", 'c': "MC()", 'z': "MZ()", 'p': "MP()", 'q': "MQ()", 'x': "«x»(int)", 'y': "«y»(int)"},
-		Meta:  []gen.MetaVar{{Name: "N", Kind: "identifier"}},
-		Wrap:  func(i int, b string) string { return b + "\n\n" }},
+		Elem: map[byte]string{'a': "MA()", 'b': "MB()", 'c': "MC()", 'z': "MZ()", 'p': "MP()", 'q': "MQ()", 'x': "«x»(int)", 'y': "«y»(int)"},
+		Meta: []gen.MetaVar{{Name: "N", Kind: "identifier"}},
+		Wrap: func(i int, b string) string { return b + "\n\n" }},
 	{Name: "block-stmts", PatKind: "stmts", Ctx: "stmts", Sep: "", XKind: "identifier",
 		Head: func(i int) string { return "if tgt {" }, Tail: []string{"}"},
 		Elem: map[byte]string{'a': "sa()", 'b': "sb()", 'c': "sc()", 'z': "sz()", 'p': "sp()", 'q': "sq()", 'x': "«x»(1)", 'y': "«y»(1)"},
